@@ -304,11 +304,22 @@ def run_coq_cases(header, ctype, agree, terms, work, shard=400, timeout=1200):
             p.kill()
             errors.append('coqc timeout on %s' % os.path.basename(f))
             return
-        m = re.search(r'=\s*\[(.*?)\](?:%nat)?\s*:\s*list nat', out, re.S)
-        if p.returncode != 0 or not m:
-            errors.append('coqc failed on %s: %s' % (os.path.basename(f), out[-500:]))
+        # the answer is the last thing coqc prints: "= [i; j; ...]%nat : list nat" (never scan a huge error message with a
+        # backtracking pattern: a failing shard can echo megabytes of case terms)
+        body = None
+        if p.returncode == 0:
+            tail = out[-200000:]
+            end = tail.rfind(': list nat')
+            start = tail.rfind('= [', 0, end) if end >= 0 else -1
+            if start >= 0:
+                close = tail.rfind(']', start, end)
+                if close > start:
+                    body = tail[start + 3:close]
+        if body is None:
+            msg = out[-500:] if len(out) < 4000 else out[:600] + ' ... ' + out[-400:]
+            errors.append('coqc failed on %s: %s' % (os.path.basename(f), msg))
             return
-        for x in re.findall(r'\d+', m.group(1)):
+        for x in re.findall(r'\d+', body):
             bad.append(k + int(x))
 
     while pending or running:
